@@ -1,9 +1,10 @@
 (* C03 -- property theorems only.  Statements are about the model of the factorised-tensor modules
    (Model/Factorized.v), for EVERY carrier F whose operations form a commutative ring, every order,
    every mode size and every rank. *)
-From Coq Require Import List Arith ZArith Ring.
+From Coq Require Import List Arith ZArith Ring Lia.
 From TLV Require Import Base.Shape Base.PyList Base.Tensor Base.BigSum Base.Ops Model.Base Model.Factorized
-  Proofs.FactorizedProofs Proofs.FactorizedProofs2 Proofs.FactorizedProofs3.
+  Proofs.FactorizedProofs Proofs.FactorizedProofs2 Proofs.FactorizedProofs3 Proofs.FactorizedProofs4
+  Proofs.FactorizedProofs5.
 Import ListNotations.
 
 Definition is_ring {F : Type} (Op : fops F) : Prop :=
@@ -39,40 +40,35 @@ Theorem C03_cp_to_vec : forall (F : Type) (Op : fops F), is_ring Op ->
 Proof. exact cp_to_vec_spec. Qed.
 Print Assumptions C03_cp_to_vec.
 
-(* cp_to_unfolded(mode) = unfold(cp_to_tensor, mode) for every mode -- on the code as it is this holds for order >= 2
-   only (hypothesis 2 <= length fs; non-empty tensor); the order-1 case is the refutation below *)
-Theorem C03_cp_to_unfolded_partial : forall (F : Type) (Op : fops F), is_ring Op ->
+(* cp_to_unfolded(mode) = unfold(cp_to_tensor, mode) for every order (incl. order 1: the vector as one column) and
+   every mode, on non-empty tensors *)
+Theorem C03_cp_to_unfolded : forall (F : Type) (Op : fops F), is_ring Op ->
   forall (w : option (tensor F)) (fs : list (tensor F)) (shp : list nat) (R m : nat),
   validate_cp w fs = Ok (shp, R) -> Forall (fun f => ndim f = 2) fs ->
-  2 <= length fs -> m < length fs -> 0 < prod shp ->
+  m < length fs -> 0 < prod shp ->
   exists t u, cp_to_tensor Op w fs None = Ok t /\ cp_to_unfolded Op w fs m = Ok u /\ unfold (f0 Op) t m = Ok u.
 Proof. exact cp_to_unfolded_spec. Qed.
-Print Assumptions C03_cp_to_unfolded_partial.
+Print Assumptions C03_cp_to_unfolded.
 
-Theorem C03_cp_unfolded_order1_refuted :
-  exists (w : option (tensor Z)) fs shp R t,
-    validate_cp w fs = Ok (shp, R) /\ Forall (fun f => ndim f = 2) fs /\ 0 < prod shp /\
-    cp_to_tensor Zops w fs None = Ok t /\ cp_to_unfolded Zops w fs 0 = Err /\ unfold 0%Z t 0 <> Err.
-Proof. exact cp_unfolded_order1_refuted. Qed.
-Print Assumptions C03_cp_unfolded_order1_refuted.
-
-(* masked reconstruction: entry = mask[idx] * CP entry -- order >= 2 on the code as it is; order 1 refuted below *)
-Theorem C03_cp_to_tensor_masked_partial : forall (F : Type) (Op : fops F), is_ring Op ->
+(* masked reconstruction, every order: entry = mask[idx] * CP entry *)
+Theorem C03_cp_to_tensor_masked : forall (F : Type) (Op : fops F), is_ring Op ->
   forall (w : option (tensor F)) (fs : list (tensor F)) (shp : list nat) (R : nat) (mask : tensor F),
-  validate_cp w fs = Ok (shp, R) -> Forall (fun f => ndim f = 2) fs -> 2 <= length fs ->
+  validate_cp w fs = Ok (shp, R) -> Forall (fun f => ndim f = 2) fs ->
   shape mask = shp -> wf mask ->
   exists t, cp_to_tensor Op w fs (Some mask) = Ok t /\ shape t = shp /\
     forall idx, inb shp idx -> get (f0 Op) t idx = fmul Op (get (f0 Op) mask idx) (cp_entry F Op w fs R idx).
 Proof. exact cp_to_tensor_masked_spec. Qed.
-Print Assumptions C03_cp_to_tensor_masked_partial.
+Print Assumptions C03_cp_to_tensor_masked.
 
-Theorem C03_cp_mask_order1_refuted :
-  exists (w : option (tensor Z)) fs shp R mask t,
-    validate_cp w fs = Ok (shp, R) /\ Forall (fun f => ndim f = 2) fs /\ shape mask = shp /\ wf mask /\
-    cp_to_tensor Zops w fs (Some mask) = Ok t /\
-    get 0%Z t [1%nat] <> (get 0%Z mask [1%nat] * cp_entry Z Zops w fs R [1%nat])%Z.
-Proof. exact cp_mask_order1_refuted. Qed.
-Print Assumptions C03_cp_mask_order1_refuted.
+(* non-vacuity: a weighted order-1 and an order-3 CP tensor pass the hypotheses; the two former order-1 defects as examples *)
+Example C03_cp_hyps_order1 : validate_cp (Some wW) [wA] = Ok ([3], 2) /\ Forall (fun f : tensor Z => ndim f = 2) [wA].
+Proof. split; [reflexivity | repeat constructor]. Qed.
+Example C03_cp_hyps_order3 : validate_cp (Some wW) [wA; wA; mk [1; 2] [7; 8]%Z] = Ok ([3; 3; 1], 2).
+Proof. reflexivity. Qed.
+Example C03_cp_unfolded_order1_example : cp_to_unfolded Zops (Some wW) [wA] 0 = Ok (mk [3; 1] [0; 2; 4]%Z).
+Proof. exact cp_unfolded_order1_example. Qed.
+Example C03_cp_mask_order1_example : cp_to_tensor Zops (Some wW) [wA] (Some wM) = Ok (mk [3] [0; 0; 4]%Z).
+Proof. exact cp_mask_order1_example. Qed.
 
 (* ------------------------------------------------------------------ tensor train *)
 (* tt_to_tensor: entry idx = (G_1[:, i_1, :] G_2[:, i_2, :] ... G_N[:, i_N, :])[0, 0], for every number of cores, all
@@ -84,3 +80,67 @@ Theorem C03_tt_to_tensor : forall (F : Type) (Op : fops F), is_ring Op ->
     forall idx, inb ns idx -> get (f0 Op) t idx = chain F Op cs idx 0 0.
 Proof. exact tt_to_tensor_spec. Qed.
 Print Assumptions C03_tt_to_tensor.
+
+(* _validate_tt_tensor accepts exactly: a non-empty list of 3-D cores (r_k, n_k, r_k+1), consecutive ranks equal, both boundary
+   ranks 1; it reports (mode sizes, ranks) *)
+Theorem C03_validate_tt_iff : forall (F : Type) (cs : list (tensor F)) (shp rk : list nat),
+  validate_tt cs = Ok (shp, rk) <-> cs <> [] /\ exists rs, rk = rs ++ [1] /\ chain_shapes F 1 cs shp rs 1.
+Proof. exact validate_tt_iff. Qed.
+Print Assumptions C03_validate_tt_iff.
+
+(* ------------------------------------------------------------------ tensor ring *)
+(* tr_to_tensor: entry idx = trace (G_1[:, i_1, :] ... G_N[:, i_N, :]) for every number N >= 2 of cores (first core, any list
+   of middle cores, last core closing the ring), all mode sizes and positive ranks *)
+Theorem C03_tr_to_tensor : forall (F : Type) (Op : fops F), is_ring Op ->
+  forall (fa : tensor F) (mid : list (tensor F)) (fl : tensor F) (n0 : nat) (nsm : list nat) (nL r0 rL : nat),
+  tt_cores F r0 (fa :: mid) (n0 :: nsm) rL -> shape fl = [rL; nL; r0] -> 0 < r0 ->
+  0 < prod ((n0 :: nsm) ++ [nL]) ->
+  exists t, tr_to_tensor Op (fa :: mid ++ [fl]) = Ok t /\ shape t = (n0 :: nsm) ++ [nL] /\
+    forall idx, inb ((n0 :: nsm) ++ [nL]) idx ->
+      get (f0 Op) t idx = fsumn Op r0 (fun a => chain F Op ((fa :: mid) ++ [fl]) idx a a).
+Proof. exact tr_to_tensor_spec. Qed.
+Print Assumptions C03_tr_to_tensor.
+
+(* _validate_tr_tensor accepts exactly: at least two 3-D cores whose ranks match cyclically *)
+Theorem C03_validate_tr_iff : forall (F : Type) (cs : list (tensor F)) (shp rk : list nat),
+  validate_tr cs = Ok (shp, rk) <->
+  2 <= length cs /\ exists rs r0, rk = rs ++ [r0] /\ chain_shapes F r0 cs shp rs r0.
+Proof. exact validate_tr_iff. Qed.
+Print Assumptions C03_validate_tr_iff.
+
+(* non-vacuity for the train / ring hypotheses: a 2-core train with inner rank 2, closed as a ring of boundary rank 2 *)
+Example C03_tt_hyps : tt_cores Z 1 [mk [1; 2; 2] [1; 2; 3; 4]%Z; mk [2; 3; 1] [1; 0; 2; -1; 1; 1]%Z] [2; 3] 1.
+Proof. econstructor; [reflexivity | lia |]. econstructor; [reflexivity | lia | constructor]. Qed.
+Example C03_tr_hyps : tt_cores Z 2 [mk [2; 1; 3] [1; 2; 3; 4; 5; 6]%Z] [1] 3 /\ shape (mk [3; 2; 2] (repeat 1%Z 12)) = [3; 2; 2].
+Proof. split; [econstructor; [reflexivity | lia | constructor] | reflexivity]. Qed.
+
+(* ------------------------------------------------------------------ Tucker *)
+(* tucker_to_tensor(core, factors, skip_factor=skip): entry idx = sum over all core indices js of core[js] * prod_l U_l[idx_l, js_l]
+   (a skipped mode contributes the Kronecker delta), every order, every skip, all sizes >= 1; induction over the modes *)
+Theorem C03_tucker_to_tensor : forall (F : Type) (Op : fops F), is_ring Op ->
+  forall (core : tensor F) (fs : list (tensor F)) (ns : list nat) (skip : option nat),
+  tk_shapes F 0 skip fs ns (shape core) -> wf core -> 0 < prod (shape core) -> 0 < prod ns ->
+  exists t, tucker_to_tensor Op core fs skip false = Ok t /\ shape t = ns /\
+    forall idx, inb ns idx ->
+      get (f0 Op) t idx =
+      sum_idx F (f0 Op) (fadd Op) (shape core) (fun js => fmul Op (get (f0 Op) core js) (tk_prod F Op 0 skip fs idx js)).
+Proof. exact tucker_to_tensor_spec. Qed.
+Print Assumptions C03_tucker_to_tensor.
+
+(* transpose_factors=True reconstructs from the transposed matrices *)
+Theorem C03_tucker_transpose_factors : forall (F : Type) (Op : fops F) (core : tensor F) (fs : list (tensor F)) (skip : option nat),
+  Forall (fun M => ndim M = 2) fs ->
+  tucker_to_tensor Op core fs skip true = tucker_to_tensor Op core (map (mT Op) fs) skip false.
+Proof. exact tucker_transpose_factors. Qed.
+Print Assumptions C03_tucker_transpose_factors.
+
+(* _validate_tucker_tensor accepts exactly: >= 2 factors, as many as the core has modes, factor l a matrix with as many
+   columns as the core has entries along mode l; reports (row counts, shape of the core) *)
+Theorem C03_validate_tucker_iff : forall (F : Type) (core : tensor F) (fs : list (tensor F)) (shp rk : list nat),
+  validate_tucker core fs = Ok (shp, rk) <->
+  2 <= length fs /\ length fs = ndim core /\ rk = shape core /\ tk_shapes F 0 None fs shp rk.
+Proof. exact validate_tucker_iff. Qed.
+Print Assumptions C03_validate_tucker_iff.
+
+Example C03_tucker_hyps : tk_shapes Z 0 (Some 1) [mk [3; 2] [1; 2; 3; 4; 5; 6]%Z; mk [7; 7] []] [3; 2] [2; 2].
+Proof. constructor; [reflexivity|]. constructor; [reflexivity | constructor]. Qed.
